@@ -12,7 +12,7 @@ pub assume_specification [isize::abs] (x: isize) -> (r: isize)
 //@ item consume file=src/core/iter.rs block="impl<T: ?Sized> IteratorExt for T where T: Iterator," fn=consume
 //@ rw R2 + re⟦\bself\b⟧ => ⟦this⟧
 //@ rw R4 * ⟦(&mut this).peekable()⟧ => ⟦&mut this⟧
-//@ loop 1
+//@ loop? 1
             invariant true
             ensures iter.rest().len() == 0
             decreases iter.rest().len()
